@@ -907,15 +907,42 @@ type selResult struct {
 	fail  *failure
 }
 
-func runSelector(e int, edits []edit) selResult {
+// selCanon: what an equality kind can still tell apart, keeping presence visible.  Selector
+// histories only bind values >= 1, so a handle value of 0 means "absent" (Go's zero value).
+func selCanon(e int) func(int) int {
+	c := canonOf(e)
+	return func(v int) int {
+		if v == 0 {
+			return 0
+		}
+		if c == nil {
+			return 1 + v
+		}
+		return 1 + c(v)
+	}
+}
+
+// runSelector drives a real mapi.Selector: several Select(key) handles, each with its own
+// observer.  rep is nil for the runs of the shrinker.
+func runSelector(e int, edits []edit, rep *hx.Report) selResult {
 	var res selResult
+	count := func(k string) {
+		if rep != nil {
+			rep.Count(k)
+		}
+	}
 	g := incr.New()
 	input := incr.Var(g, pmap.New[int, int]())
 	sel := mapi.NewSelector(g, input, eqOf(e))
 	nodes := map[int]incr.Incr[int]{}
 	observers := map[int]incr.ObserveIncr[int]{}
 	cur := map[int]int{}
-	canon := canonOf(e)
+	canon := selCanon(e)
+	// per handle: did its key change, in a pass the fan-out node took part in, while the handle
+	// itself was unobserved?  (what it has to catch up with when it is observed again)
+	missed := map[int]string{}
+	seenAt := map[int]int{} // key -> value at the last pass (absent: no entry)
+	reobserved := map[int]bool{}
 	emit := func(ev string, o *obs) { res.steps = append(res.steps, selStep{ev, o}) }
 	for i, ed := range edits {
 		switch ed.Kind {
@@ -934,11 +961,19 @@ func runSelector(e int, edits []edit) selResult {
 		case "touch":
 			input.Set(input.Value())
 		case "select":
-			nodes[ed.K] = sel.Select(ed.K)
+			if _, ok := nodes[ed.K]; !ok {
+				if _, present := cur[ed.K]; present {
+					count("selector-handle:selected-for-a-present-key")
+				} else {
+					count("selector-handle:selected-for-an-absent-key")
+				}
+			}
+			nodes[ed.K] = sel.Select(ed.K) // the same handle when asked twice
 			emit(fmt.Sprintf("SvSelect %d", ed.K), nil)
 		case "sobs":
 			if n, ok := nodes[ed.K]; ok && observers[ed.K] == nil {
 				observers[ed.K] = incr.MustObserve(g, n)
+				reobserved[ed.K] = true
 				emit(fmt.Sprintf("SvObserve %d", ed.K), nil)
 			}
 		case "sunobs":
@@ -948,6 +983,47 @@ func runSelector(e int, edits []edit) selResult {
 				emit(fmt.Sprintf("SvUnobserve %d", ed.K), nil)
 			}
 		case "pass":
+			// classify what this pass asks of the selector
+			for k := range nodes {
+				was, had := seenAt[k]
+				now, has := cur[k]
+				kind := ""
+				switch {
+				case had && !has:
+					kind = "removed"
+				case !had && has:
+					kind = "added"
+				case had && has && was != now:
+					kind = "rebound"
+				}
+				if observers[k] == nil {
+					if kind != "" && len(observers) > 0 {
+						missed[k] = kind
+						count("selector-pass:key-" + kind + "-while-its-handle-is-unobserved-and-another-is-observed")
+					} else if kind != "" {
+						if missed[k] == "" {
+							missed[k] = "(all handles unobserved)"
+						}
+						count("selector-pass:key-" + kind + "-while-every-handle-is-unobserved")
+					}
+					continue
+				}
+				if reobserved[k] {
+					switch m := missed[k]; {
+					case m == "(all handles unobserved)":
+						count("selector-pass:handle-REOBSERVED-after-its-key-changed-while-all-were-unobserved")
+					case m != "":
+						count("selector-pass:handle-REOBSERVED-after-its-key-was-" + m + "-under-a-running-fan-out")
+					default:
+						count("selector-pass:handle-observed-or-reobserved-nothing-missed")
+					}
+				} else if kind != "" {
+					count("selector-pass:observed-handle's-key-" + kind)
+				}
+				delete(missed, k)
+			}
+			reobserved = map[int]bool{}
+			seenAt = cloneMap(cur)
 			if err := stabilize(g); err != nil {
 				res.fail = &failure{pass: i, what: "Stabilize failed: " + err.Error()}
 				return res
@@ -958,14 +1034,19 @@ func runSelector(e int, edits []edit) selResult {
 			}
 			o := obs{sortedEntries(all)}
 			emit("SvPass", &o)
+			// the oracle: every observed handle equals input.Get(key), value and presence
 			got, want := map[int]int{}, map[int]int{}
 			for k := range observers {
 				got[k] = nodes[k].Value()
-				want[k] = cur[k] // the zero value while absent
+				if v, ok := input.Value().Get(k); ok {
+					want[k] = v
+				} else {
+					want[k] = 0 // absent: the zero value
+				}
 			}
 			g1, w1 := obs{sortedEntries(got)}, obs{sortedEntries(want)}
 			if !obsEq(canonObs(g1, canon), canonObs(w1, canon)) {
-				res.fail = &failure{pass: i, got: g1, want: w1, what: "an observed per-key node differs from the key's current value"}
+				res.fail = &failure{pass: i, got: g1, want: w1, what: "an observed Select(key) handle differs from input.Get(key) (0 = absent)"}
 				return res
 			}
 		}
@@ -973,51 +1054,159 @@ func runSelector(e int, edits []edit) selResult {
 	return res
 }
 
+// genSelector: several handles (keys present, absent, added later, removed later), each with its
+// own observer that is dropped and re-established independently of the others.
 func genSelector(r *hx.Rand, episodes int, rep *hx.Report) []edit {
 	var out []edit
-	for ep := 0; ep < episodes; ep++ {
-		k := r.Intn(100)
-		switch {
-		case k < 25:
-			rep.Count("episode:single-edit")
-			out = append(out, randEdit(r, 0))
-		case k < 45:
-			rep.Count("episode:many-keys")
-			for n := r.Range(2, 6); n > 0; n-- {
-				out = append(out, randEdit(r, 0))
-			}
-		case k < 55:
-			rep.Count("episode:rebuilt-unrelated-map")
-			out = append(out, edit{Kind: "rebuild", M: randMap(r)})
-		case k < 75:
-			rep.Count("episode:select-and-observe")
-			key := r.Intn(nKeys)
-			out = append(out, edit{Kind: "select", K: key})
-			if r.Chance(4, 5) {
-				out = append(out, edit{Kind: "sobs", K: key})
-			}
-		default:
-			rep.Count("episode:unobserve-edit-reobserve")
-			var dropped []int
-			for n := r.Range(1, 3); n > 0; n-- {
-				key := r.Intn(nKeys)
-				dropped = append(dropped, key)
-				out = append(out, edit{Kind: "sunobs", K: key})
-			}
-			for n := r.Range(0, 4); n > 0; n-- {
-				if r.Chance(1, 5) {
-					out = append(out, edit{Kind: "pass"})
-				} else {
-					out = append(out, randEdit(r, 0))
-				}
-			}
-			for _, key := range dropped {
-				if r.Chance(4, 5) {
-					out = append(out, edit{Kind: "sobs", K: key})
-				}
+	cur := map[int]int{}
+	selected := map[int]bool{}
+	observed := map[int]bool{}
+	val := func() int { return r.Range(1, nVals-1) } // >= 1: 0 is "absent"
+	keysOf := func(m map[int]bool) []int {
+		var ks []int
+		for k := 0; k < nKeys; k++ {
+			if m[k] {
+				ks = append(ks, k)
 			}
 		}
-		out = append(out, edit{Kind: "pass"})
+		return ks
+	}
+	set := func(k, v int) { cur[k] = v; out = append(out, edit{Kind: "set", K: k, V: v}) }
+	del := func(k int) { delete(cur, k); out = append(out, edit{Kind: "del", K: k}) }
+	anyEdit := func() {
+		k := r.Intn(nKeys)
+		if _, ok := cur[k]; ok && r.Chance(3, 10) {
+			del(k)
+		} else {
+			set(k, val())
+		}
+	}
+	// an edit that really changes key k: rebind to another value, remove, or (re-)add
+	changeKey := func(k int) string {
+		v, ok := cur[k]
+		switch {
+		case !ok:
+			set(k, val())
+			return "re-add"
+		case r.Chance(1, 3):
+			del(k)
+			return "remove"
+		default:
+			nv := val()
+			for nv == v {
+				nv = val()
+			}
+			set(k, nv)
+			return "rebind"
+		}
+	}
+	pass := func() { out = append(out, edit{Kind: "pass"}) }
+	selectKey := func(k int, observe bool) {
+		selected[k] = true
+		out = append(out, edit{Kind: "select", K: k})
+		if observe && !observed[k] {
+			observed[k] = true
+			out = append(out, edit{Kind: "sobs", K: k})
+		}
+	}
+	unobs := func(k int) { delete(observed, k); out = append(out, edit{Kind: "sunobs", K: k}) }
+	obsv := func(k int) { observed[k] = true; out = append(out, edit{Kind: "sobs", K: k}) }
+	// start with a few entries and two or three handles, one of them for an absent key
+	for n := r.Range(1, 3); n > 0; n-- {
+		set(r.Intn(nKeys), val())
+	}
+	for n := r.Range(2, 3); n > 0; n-- {
+		selectKey(r.Intn(nKeys), true)
+	}
+	pass()
+	for ep := 0; ep < episodes; ep++ {
+		k := r.Intn(100)
+		obsKeys := keysOf(observed)
+		switch {
+		case k < 12:
+			rep.Count("episode:single-edit")
+			anyEdit()
+		case k < 24:
+			rep.Count("episode:many-keys")
+			for n := r.Range(2, 6); n > 0; n-- {
+				anyEdit()
+			}
+		case k < 30:
+			rep.Count("episode:rebuilt-unrelated-map")
+			m := map[int]int{}
+			for key := 0; key < nKeys; key++ {
+				if r.Chance(1, 2) {
+					m[key] = val()
+				}
+			}
+			cur = cloneMap(m)
+			out = append(out, edit{Kind: "rebuild", M: m})
+		case k < 42:
+			rep.Count("episode:select-another-handle")
+			selectKey(r.Intn(nKeys), r.Chance(4, 5))
+		case k < 70 && len(obsKeys) >= 2:
+			// unobserve ONE handle, change its key over one or more passes while another handle
+			// keeps the fan-out running, then observe the same handle again
+			rep.Count("episode:unobserve-one-handle,change-its-key-over-passes,reobserve")
+			key := obsKeys[r.Intn(len(obsKeys))]
+			unobs(key)
+			for n := r.Range(1, 3); n > 0; n-- {
+				rep.Count("episode-step:unobserved-handle's-key:" + changeKey(key))
+				if r.Chance(1, 3) {
+					anyEdit()
+				}
+				pass()
+			}
+			if r.Chance(1, 4) {
+				pass() // a quiet pass in between
+			}
+			obsv(key)
+		case k < 78 && len(obsKeys) >= 2:
+			rep.Count("episode:unobserve-one-handle,change-its-key,reobserve-in-the-same-pass")
+			key := obsKeys[r.Intn(len(obsKeys))]
+			unobs(key)
+			rep.Count("episode-step:unobserved-handle's-key:" + changeKey(key))
+			obsv(key)
+		case k < 88 && len(obsKeys) >= 1:
+			rep.Count("episode:unobserve-every-handle,edit,reobserve")
+			for _, key := range obsKeys {
+				unobs(key)
+			}
+			for n := r.Range(1, 4); n > 0; n-- {
+				if r.Chance(1, 4) {
+					pass()
+				} else if r.Chance(1, 2) {
+					changeKey(obsKeys[r.Intn(len(obsKeys))])
+				} else {
+					anyEdit()
+				}
+			}
+			for _, key := range obsKeys {
+				if r.Chance(4, 5) {
+					obsv(key)
+				}
+			}
+		case k < 94 && len(obsKeys) >= 2:
+			rep.Count("episode:unobserve-one-handle-and-leave-it")
+			unobs(obsKeys[r.Intn(len(obsKeys))])
+			anyEdit()
+		default:
+			// bring back a handle that has been dormant for a while (or, failing that, edit)
+			var dormant []int
+			for _, key := range keysOf(selected) {
+				if !observed[key] {
+					dormant = append(dormant, key)
+				}
+			}
+			if len(dormant) > 0 {
+				rep.Count("episode:reobserve-a-dormant-handle")
+				obsv(dormant[r.Intn(len(dormant))])
+			} else {
+				rep.Count("episode:single-edit")
+				anyEdit()
+			}
+		}
+		pass()
 	}
 	for _, e := range out {
 		rep.Count("edit:" + e.Kind)
@@ -1620,17 +1809,18 @@ func main() {
 	}
 
 	if enabled("Selector") {
-		for i := 0; i < *count; i++ {
+		for i := 0; i < *count*2; i++ {
 			r := rng.Fork()
-			e := r.Intn(3)
+			e := []int{0, 0, 0, 1, 2}[r.Intn(5)] // mostly exact equality, where every rebind must show
+			rep.Count(fmt.Sprintf("selector-equal:%s", []string{"exact", "nil", "coarse"}[e]))
 			edits := genSelector(r, *episodes+4, rep)
-			res := runSelector(e, edits)
+			res := runSelector(e, edits, rep)
 			rep.Evaluations++
 			rep.Count("op:Selector")
 			rep.Count("oracle:plain-definition")
 			if res.fail != nil {
-				small := shrink(edits, func(es []edit) bool { return runSelector(e, es).fail != nil })
-				f := runSelector(e, small).fail
+				small := shrink(edits, func(es []edit) bool { return runSelector(e, es, nil).fail != nil })
+				f := runSelector(e, small, nil).fail
 				report("mapi:Selector", fmt.Sprintf("mapi.Selector (equal kind %d): %s: got %v want %v after %v", e, f.what, f.got, f.want, editStrings(small)),
 					map[string]any{"operator": "Selector", "equal": e, "edits": small, "script": editStrings(small), "got": f.got.String(), "want": f.want.String()})
 			}
@@ -1715,7 +1905,7 @@ func main() {
 	}
 
 	rep.Distinct = len(distinct)
-	rep.Rule = fmt.Sprintf("%d random histories per operator kind (4x for Join: with/without unobserve episodes x key-consistent / migrating / injective / free assignment of inner nodes; inner nodes are vars and Map/Map2 nodes over two shared base vars, observed elsewhere or lazy, some above the join), %d+ episodes each (single edit, many keys per pass, "+
+	rep.Rule = fmt.Sprintf("%d random histories per operator kind (2x for Selector: several Select(key) handles with independent observers; 4x for Join: with/without unobserve episodes x key-consistent / migrating / injective / free assignment of inner nodes; inner nodes are vars and Map/Map2 nodes over two shared base vars, observed elsewhere or lazy, some above the join), %d+ episodes each (single edit, many keys per pass, "+
 		"rebuilt unrelated map, rebuilt identical map, touch, bounds change, unobserve/edit/re-observe with skipped passes) over keys 0..%d, values 0..%d; "+
 		"distinct by operator parameters + recorded recompute inputs/values; non-trivial = at least two recomputes whose input differs from the "+
 		"previous recompute's (Selector/Join: at least two passes with a non-empty value)", *count, *episodes, nKeys-1, nVals-1)
@@ -1747,6 +1937,9 @@ func main() {
 					per := 1
 					if k == "Join" {
 						per = 4 // four times as many histories, and the most intricate model
+					}
+					if k == "Selector" {
+						per = 2
 					}
 					for n := i * per; n < (i+1)*per; n++ {
 						if n < len(byKind[k]) && len(sample) < *coqMax {
